@@ -93,6 +93,8 @@ impl std::fmt::Debug for Hub {
 pub struct Hub {
     pub committee: Committee,
     pub inner: Mutex<HubInner>,
+    /// Receives every event line as well (used by engines which keep their own log).
+    pub mirror: Mutex<Option<Box<dyn Fn(String) + Send + Sync>>>,
 }
 
 impl Hub {
@@ -117,10 +119,14 @@ impl Hub {
                 potential: BTreeMap::new(),
                 focus: None,
             }),
+            mirror: Mutex::new(None),
         }
     }
 
     pub fn ev(&self, line: String) -> u64 {
+        if let Some(m) = &*self.mirror.lock().unwrap() {
+            m(line.clone());
+        }
         self.inner.lock().unwrap().log.ev(line)
     }
     pub fn fault(&self, kind: &str) {
